@@ -92,7 +92,7 @@ def run(eng, tier):
             eng.ob(p.holds(EQ(F(CFG, 'base_denom'), M(v, 'base')), False) is not None, PROP, 'record', v + ':class-decided', 'CreateAsk: class chosen without comparing the base with the contract base denomination')
         want = ('adt', 'ask_order::AskOrderV1', 'AskOrderV1', (('id', M(v, 'id')), ('owner', SENDER), ('class', cls), ('base', M(v, 'base')), ('quote', M(v, 'quote')), ('price', M(v, 'price')), ('size', M(v, 'size'))))
         got = w['val']
-        okr = got[0] == 'adt' and dict(got[3]) == dict(want[3])
+        okr = got[0] == 'adt' and canon(got) == canon(want)
         eng.ob(okr, PROP, 'record', v + ':equals-request', 'CreateAsk: the recorded ask differs from the request: %s' % K(got)[:300], where=w['site'],
                sample={'rule': 'record', 'request': v, 'saved': K(got)[:200]})
         eng.ob(w['key'] == M(v, 'id'), PROP, 'key', v, 'CreateAsk: saved under key %s, not the request id' % K(w['key']), where=w['site'])
@@ -221,7 +221,7 @@ def refusal_tables(v):
               ('fee-denom-wrong', 'L', lambda e: isf(e, ('val', EQ(F(SOMEV(M(v, 'fee')), 'denom'), M(v, 'quote')), False)))]
     def ab(e, kind): return e.get('abort') and e['abort'][0] == kind
     TA = [
-        ('action-name-serialisation', 'D(unit enum serialises)', lambda e: ab(e, 'unwrap') and 'ContractAction' in e['key']),
+        ('action-name-serialisation', 'D(unit enum serialises)', lambda e: is_unit_enum_serialisation(e)),
         ('zero-amount-pull', 'D(validate: size >= 1)', lambda e: ab(e, 'unwrap') and 'transfer amount must be > 0' in e['key']),
         ('increment-zero', 'D(K)', lambda e: ab(e, 'assert') and 'size_increment' in e['key']),
         ('precision-power', 'D(K: precision <= 18)', lambda e: (ab(e, 'unwrap') or ab(e, 'assert')) and ('pow' in e['key'] or '^' in e['key'] or 'checked_mul' in e['key'])),
